@@ -199,7 +199,7 @@ let stopped_other_name iters dl i ty inst =
           | RPtr a -> a = inst && d.dl_rr.r_name = ty2 && d.dl_rr.r_type = ty_ptr | _ -> false) dl
       | _ -> false) it.i_calls) (take (i + 1) iters)
 
-let refine ifs iters (f : fail) (tag : string) : string =
+let refine ifs iters (hidden : bool Lazy.t) (f : fail) (tag : string) : string =
   let dl = all_dlvs ifs iters in
   match f with
   | F04_labels (_, ls) ->
@@ -211,7 +211,11 @@ let refine ifs iters (f : fail) (tag : string) : string =
   | F04_complete (_, _, _, inst, fresh) -> if fresh && srv_targets dl inst then "complete:srv-targets" else tag
   (* the class excluded by C04_resolved_only_after_found_partial (Model/BrowserKnown.v) *)
   | F05_dead (i, _, ty, inst, _, srv_live) ->
-    if not srv_live && stopped_other_name iters dl (int_of_n i) ty inst then "dead:stopped-second-name" else tag
+    if not srv_live && stopped_other_name iters dl (int_of_n i) ty inst then "dead:stopped-second-name"
+    (* the class excluded by C05_removed_on_time_partial: a removal was skipped because a PTR was in its last second *)
+    else if Lazy.force hidden then "dead:ptr-last-second" else tag
+  (* refuted inside the class (C05_no_resolved_again_refuted_in_srv_targets) *)
+  | F05_again (_, _, inst) -> if srv_targets dl inst then "again:srv-targets" else tag
   | F04_order _ -> if known_browse_expiring ifs iters then "order:browse-expiring-ptr" else tag
   | _ -> tag
 
@@ -219,7 +223,8 @@ let verdict ifs iters (fs : fail list) : string =
   match fs with
   | [] -> "PASS"
   | _ ->
-    let tagged = List.map (fun f -> let (t, d) = string_of_fail f in (refine ifs iters f t, d)) fs in
+    let hidden = lazy (known_removal_hidden ifs iters) in
+    let tagged = List.map (fun f -> let (t, d) = string_of_fail f in (refine ifs iters hidden f t, d)) fs in
     let tags = List.sort_uniq compare (List.map fst tagged) in
     Printf.sprintf "FAIL[%s] %s (%d failures)" (String.concat "," tags) (snd (List.hd tagged)) (List.length fs)
 
